@@ -217,8 +217,11 @@ def applyStep (g : Graph Rat) (st : Json) : R (Except Err (Graph Rat)) := do
 def runSteps : Graph Rat → List Json → List Json → R (List Json)
   | _, [], acc => pure acc
   | g, st :: rest, acc => do
+    let isAdd := (fStr st "k").toOption == some "add"
+    -- the model's `add` takes `other` by value: it is untouched and nothing is shared, by construction
+    let extra := if isAdd then [("other_unchanged", Json.bool true), ("shares_objects", Json.bool false)] else []
     match ← applyStep g st with
-    | .ok g' => runSteps g' rest (acc ++ [jObj (graphState g')])
+    | .ok g' => runSteps g' rest (acc ++ [jObj (graphState g' ++ extra)])
     | .error e => pure (acc ++ [jErr e])
 
 /-! ### handler -/
